@@ -400,7 +400,24 @@ fn single_alloc_ok(path: &Path) -> bool {
     let file = parse_file(path);
     let Some(body) = find_fn(&file, "Arena", "allocate_memory") else { return false };
     let t = squash(&toks(body));
-    t == "{ifself.memory_usage+requested_mem>self.max_memory_usage{Err(LassoError::new(LassoErrorKind::MemoryLimitReached))}else{self.memory_usage+=requested_mem;Ok(())}}"
+    let err = "Err(LassoError::new(LassoErrorKind::MemoryLimitReached))";
+    let sum = "self.memory_usage+requested_mem";
+    let max = "self.max_memory_usage";
+    // the same check-then-add, spelled as if/else, as an early return, with the sum in a local or the
+    // comparison mirrored
+    let mut forms: Vec<String> = Vec::new();
+    for cond in [format!("{sum}>{max}"), format!("{max}<{sum}")] {
+        forms.push(format!("{{if{cond}{{{err}}}else{{self.memory_usage+=requested_mem;Ok(())}}}}"));
+        forms.push(format!("{{if{cond}{{return{err};}}self.memory_usage+=requested_mem;Ok(())}}"));
+        forms.push(format!("{{if{cond}{{return{err}}}self.memory_usage+=requested_mem;Ok(())}}"));
+    }
+    for local in ["new_usage", "usage", "next_usage", "total", "new_memory_usage"] {
+        for cond in [format!("{local}>{max}"), format!("{max}<{local}")] {
+            forms.push(format!("{{let{local}={sum};if{cond}{{return{err};}}self.memory_usage={local};Ok(())}}"));
+            forms.push(format!("{{let{local}={sum};if{cond}{{{err}}}else{{self.memory_usage={local};Ok(())}}}}"));
+        }
+    }
+    forms.contains(&t)
 }
 
 pub fn emit(src: &Path, out: &mut String) {
